@@ -425,7 +425,10 @@ class SecopClient(ProxyClient):
                 self.active_requests[key] = entry
                 line = encode_msg_frame(*request)
                 self.log.debug('TX: %r', line)
-                self.io.send(line)
+                try:
+                    self.io.send(line)
+                except Exception:  # connection lost or closed by a concurrent disconnect
+                    break
         self._txthread = None
         self.disconnect(False)
 
